@@ -28,21 +28,36 @@ theorem M.Rel.liftE_bind {α β : Type} {R : Conn → Conn → List Effect → P
   | error ex => rw [M.liftE_error_bind_apply]; exact Compositional.refl c
   | ok a => rw [M.liftE_ok_bind_apply]; exact (h a rfl).out c
 
-theorem resendLoop_rr (env : Env) (sr : Msg → Bool) (rows : List Msg) (a b : Int) :
-    M.Rel RResend (resendLoop env sr rows a b) := by
+/-- a row above EndSeqNo goes back into the journal unsent (fix da179c4) -/
+theorem persistOutboundRow_rr (n : Int) (row : Msg) : M.Rel RResend (persistOutboundRow n row) := by
+  constructor
+  intro c
+  unfold persistOutboundRow
+  rw [M.get_bind_apply]
+  cases hj : c.journal.persist .outbound n row with
+  | none => simp only [M.throw_apply]; exact Compositional.refl c
+  | some j =>
+    obtain ⟨_, hi, hb⟩ := persist_out_fields hj
+    simp only [M.modify_apply]
+    exact ⟨rfl, hi, hb, rfl, NoNewWrites.nil⟩
+
+theorem resendLoop_rr (env : Env) (sr : Msg → Bool) (endNo : Int) (rows : List Msg) (a b : Int) :
+    M.Rel RResend (resendLoop env sr endNo rows a b) := by
   induction rows generalizing a b with
   | nil => unfold resendLoop; exact M.Rel.pure _
   | cons row rest ih =>
     unfold resendLoop
     apply M.Rel.bind (M.Rel.liftE _); intro v
     apply M.Rel.bind (M.Rel.int _); intro n
+    apply M.Rel.ite
+    · exact M.Rel.bind (persistOutboundRow_rr n row) (fun _ => ih _ _)
     apply M.Rel.bind (M.Rel.liftE _); intro ty
     apply M.Rel.ite
     · exact ih _ _
     · have hjp : ∀ u : Unit, M.Rel RResend (do
           let rp ← M.liftE (prepareReplay row)
           sendMsg env rp
-          resendLoop env sr rest (n + 1) b) := by
+          resendLoop env sr endNo rest (n + 1) b) := by
         intro _
         apply M.Rel.liftE_bind
         intro rp hrp
@@ -55,15 +70,16 @@ theorem resendLoop_rr (env : Env) (sr : Msg → Bool) (rows : List Msg) (a b : I
       · exact hjp ()
 
 /-- the part of `_process_resend` between its two `set_seq_num` calls -/
-def resendMid (env : Env) (sr : Msg → Bool) (rows : List Msg) (b cur : Int) : M Unit := do
-  let (gfb, gfe) ← resendLoop env sr rows b b
+def resendMid (env : Env) (sr : Msg → Bool) (e : Int) (rows : List Msg) (b cur : Int) : M Unit := do
+  let (gfb, gfe) ← resendLoop env sr e rows b b
   M.assert (decide (gfe ≤ cur))
-  if gfb < cur then sendMsg env (gapFillMsg gfb cur) else pure ()
+  let gfe2 := min (e + 1) cur
+  if gfb < gfe2 then sendMsg env (gapFillMsg gfb gfe2) else pure ()
 
-theorem resendMid_rr (env : Env) (sr : Msg → Bool) (rows : List Msg) (b cur : Int) :
-    M.Rel RResend (resendMid env sr rows b cur) := by
+theorem resendMid_rr (env : Env) (sr : Msg → Bool) (e : Int) (rows : List Msg) (b cur : Int) :
+    M.Rel RResend (resendMid env sr e rows b cur) := by
   unfold resendMid
-  apply M.Rel.bind (resendLoop_rr env sr rows b b)
+  apply M.Rel.bind (resendLoop_rr env sr e rows b b)
   intro p
   obtain ⟨gfb, gfe⟩ := p
   apply M.Rel.bind (M.Rel.assert _)
@@ -84,14 +100,14 @@ theorem resendTail_good : OkRel g (Good om) resendTail := by
   ok_tac [stateSet_good]
 
 /-- rewind; replay; restore; tail – started in the state whose counter is `cur` -/
-def resendBody (env : Env) (sr : Msg → Bool) (rows : List Msg) (b cur : Int) : M Unit := do
+def resendBody (env : Env) (sr : Msg → Bool) (e : Int) (rows : List Msg) (b cur : Int) : M Unit := do
   setSeqNum (some b) none
-  resendMid env sr rows b cur
+  resendMid env sr e rows b cur
   setSeqNum (some cur) none
   resendTail
 
-theorem resendBody_good (env : Env) (sr : Msg → Bool) (rows : List Msg) (b : Int) (c : Conn) :
-    ∀ a c' e, resendBody env sr rows b c.sess.nextOut c = ⟨.ok a, c', e⟩ → g e = true → Good om c c' e := by
+theorem resendBody_good (env : Env) (sr : Msg → Bool) (en : Int) (rows : List Msg) (b : Int) (c : Conn) :
+    ∀ a c' e, resendBody env sr en rows b c.sess.nextOut c = ⟨.ok a, c', e⟩ → g e = true → Good om c c' e := by
   intro a c' e h hg
   unfold resendBody at h
   have hs1 := setSeqNum_out_apply b c
@@ -100,10 +116,10 @@ theorem resendBody_good (env : Env) (sr : Msg → Bool) (rows : List Msg) (b : I
   rw [if_pos hb] at hs1
   rw [M.bind_ok hs1] at h
   simp only [List.nil_append] at h
-  rcases hm : resendMid env sr rows b c.sess.nextOut
+  rcases hm : resendMid env sr en rows b c.sess.nextOut
       { c with sess := { c.sess with nextOut := b }, journal := c.journal.setSeq b c.sess.nextIn }
     with ⟨r, c2, e2⟩
-  have hrel := (resendMid_rr env sr rows b c.sess.nextOut).out
+  have hrel := (resendMid_rr env sr en rows b c.sess.nextOut).out
       { c with sess := { c.sess with nextOut := b }, journal := c.journal.setSeq b c.sess.nextIn }
   rw [hm] at hrel
   cases r with
@@ -155,7 +171,7 @@ def resendRest (env : Env) (sr : Msg → Bool) (m : Msg) : M Unit := do
   let e := if e0 == 0 then sysMaxsize else e0
   if b < 1 || b ≥ c.sess.nextOut then
     if c.state != st_RESENDREQ_AWAITING then stateSet st_ACTIVE else pure ()
-  else resendBody env sr (c.journal.recoverOut b e) b c.sess.nextOut
+  else resendBody env sr e (c.journal.recoverOut b sysMaxsize) b c.sess.nextOut
 
 theorem processResend_eq (env : Env) (sr : Msg → Bool) (m : Msg) :
     processResend env sr m = (do
@@ -196,7 +212,7 @@ theorem resendRest_good (env : Env) (sr : Msg → Bool) (m : Msg) : OkRel g (Goo
                 (if (c.state != st_RESENDREQ_AWAITING) = true then stateSet st_ACTIVE else pure ()) :=
               OkRel.ite (stateSet_good _) (OkRel.pure _)
             exact hs.out c a c' e (by rw [M.ite_apply]; exact h) hg
-          · exact resendBody_good env sr _ b c a c' e h hg
+          · exact resendBody_good env sr _ _ b c a c' e h hg
 
 theorem processResend_good (env : Env) (sr : Msg → Bool) (m : Msg) :
     OkRel g (Good om) (processResend env sr m) := by
